@@ -220,6 +220,27 @@ pub fn images(ct: &str, thorough: bool, rng: &mut Rng, pos: (i32, i32)) -> Vec<V
     v
 }
 
+/// Dotted-stroke copies of styled primitives that have a visible stroke (for the properties that are not
+/// restricted to solid strokes: C02, C04, C07, C08).  Every `every`-th eligible descriptor gets a copy.
+pub fn add_dotted(v: &mut Vec<Value>, every: usize) {
+    let mut extra = vec![];
+    let mut n = 0usize;
+    for d in v.iter() {
+        if d["kind"] == "prim" && d["style"]["stroke"].as_i64().unwrap_or(-1) >= 0 && d["style"]["w"].as_u64().unwrap_or(0) >= 1 {
+            n += 1;
+            if n % every == 0 {
+                let mut c = d.clone();
+                c["style"]["dot"] = json!(1);
+                extra.push(c);
+            }
+        }
+    }
+    v.extend(extra);
+}
+
+/// custom fonts with non-zero character spacing (see drawables::font_by_name)
+pub const SPACED_FONTS: [&str; 2] = ["spaced:ascii::FONT_6X9:2", "spaced:ascii::FONT_4X6:1"];
+
 pub const TEXT_FONTS: [&str; 6] = [
     "ascii::FONT_4X6",
     "ascii::FONT_6X10",
@@ -230,7 +251,8 @@ pub const TEXT_FONTS: [&str; 6] = [
 ];
 
 pub fn text_strings() -> Vec<&'static str> {
-    vec!["", "A", "gj|", "ab\ncd", "x\n\nyz", "Hi\r\nq", "a\u{2603}b", "line\n"]
+    // incl. whitespace-only lines (first, last, widest) and a tab (drawn as the replacement glyph)
+    vec!["", "A", "gj|", "ab\ncd", "x\n\nyz", "Hi\r\nq", "a\u{2603}b", "line\n", "Hi\n   ", "  \nHi", "a\n     \nb", " \t"]
 }
 
 /// Text drawables; `full` = all colour/decoration combinations instead of eight.
@@ -262,7 +284,8 @@ pub fn texts(ct: &str, thorough: bool, pos: (i32, i32)) -> Vec<Value> {
             (-1, c.bg, -2, c.deco),
         ]
     };
-    let fonts: Vec<&str> = if thorough { TEXT_FONTS.to_vec() } else { TEXT_FONTS[..4].to_vec() };
+    let mut fonts: Vec<&str> = if thorough { TEXT_FONTS.to_vec() } else { TEXT_FONTS[..4].to_vec() };
+    fonts.extend(SPACED_FONTS.iter());
     let mut n = 0usize;
     for s in text_strings() {
         for f in &fonts {
